@@ -1,3 +1,150 @@
 package dsim
 
+// C09, "conc" profile: REWRITEAOF runs while writers are active. The rewrite and the next 1-3 write
+// commands of the plan are started as tasks on their own connections and interleaved by the dice at every
+// yield site (keyspace calls, store-lock acquisitions, the two busy-wait flags, getState steps, the hook
+// between preamble and log truncation, the logging hooks). Every state the live server passes through is an
+// admissible restored state; after the phase all writers were acknowledged, so a later restart has to restore
+// at least the last of them (under the durability bound of the sync policy).
+
+import (
+	"fmt"
+	"strings"
+	"time"
+)
+
+// runConcImpl is runSeq with concurrent rewrites.
 func (a *aofRun) runConcImpl() { a.runSeq() }
+
+// rewriteConc runs REWRITEAOF concurrently with the write commands that follow it in the plan (ops[i+1:]).
+// It returns the number of plan operations consumed after the rewrite and false if the run is over.
+func (a *aofRun) rewriteConc(i int) (int, bool) {
+	s, p := a.s, a.p
+	type wr struct {
+		args []string
+		c    *Client
+		res  *Result
+	}
+	var ws []*wr
+	consumed := 0
+	used := map[string]bool{}
+	for j := i + 1; j < len(p.Ops) && len(ws) < 3; j++ {
+		op := p.Ops[j]
+		if op.Kind != "" || len(op.Args) == 0 {
+			break
+		}
+		// writers touch pairwise disjoint keys (and are no whole-database commands), so that they commute with
+		// each other: what remains is the interaction of each writer with the rewrite, not C05's non-atomicity
+		ks := CmdKeys(op.Args)
+		clash := len(ks) == 0
+		for _, k := range ks {
+			if used[k] {
+				clash = true
+			}
+		}
+		if clash {
+			break
+		}
+		consumed++
+		args, skip := a.avoidRewrite(op.Args)
+		if skip {
+			a.skipped++
+			continue
+		}
+		for _, k := range ks {
+			used[k] = true
+		}
+		w := &wr{args: args}
+		if a.client(op).TCP {
+			w.c = s.NewTCPClient(a.inst, fmt.Sprintf("g%dw%d", a.gen, j))
+			if a.tcpdb != 0 {
+				w.c.DoSync("SELECT", fmt.Sprint(a.tcpdb))
+			}
+		} else {
+			w.c = s.NewEmbeddedClient(a.inst, fmt.Sprintf("g%dw%d", a.gen, j))
+		}
+		ws = append(ws, w)
+	}
+	a.rewrites++
+	a.names = append(a.names, "REWRITEAOF")
+	wasSites, wasFilter, wasPass := s.sites, s.siteFilter, s.passAll.Load()
+	s.sites, s.siteFilter = nil, nil
+	s.passAll.Store(false)
+	defer func() {
+		s.sites, s.siteFilter = wasSites, wasFilter
+		s.passAll.Store(wasPass)
+	}()
+	var rw *Result
+	rwc := s.NewEmbeddedClient(a.inst, fmt.Sprintf("g%drw%d", a.gen, i))
+	rwc.Start([]string{"REWRITEAOF"}, func(r Result) { rw = &r })
+	for _, w := range ws {
+		w := w
+		a.names = append(a.names, "||"+strings.ToUpper(w.args[0]))
+		w.c.Start(w.args, func(r Result) { w.res = &r })
+	}
+	last := a.states[len(a.states)-1]
+	for step := 0; step < 4000; step++ {
+		parked := s.ParkedTasks()
+		if len(parked) == 0 {
+			// a TCP reply may still be in flight, or the rewrite goroutine sleeps on the fake clock
+			if rw != nil {
+				break
+			}
+			s.Advance(time.Millisecond)
+			s.Settle()
+			if len(s.ParkedTasks()) == 0 && step > 50 {
+				break
+			}
+			continue
+		}
+		tk, stuck := PickFair(parked, a.dice.Next(len(parked)), 300)
+		s.noteChoice(len(parked), tk.Site)
+		if stuck {
+			a.fail("livelock/"+tk.Site, fmt.Sprintf("REWRITEAOF with concurrent writers %v: task t%d spun %d times at %s and nothing else can change the flag", a.names[len(a.names)-len(ws):], tk.ID, tk.Spins, tk.Site))
+			return consumed, false
+		}
+		s.Release(tk)
+		if cur := a.dump(); !mapsEqual(cur, last) {
+			a.states = append(a.states, cur)
+			last = cur
+		}
+	}
+	s.DrainAll(2000)
+	if rw == nil {
+		a.fail("rewrite-never-completed", fmt.Sprintf("REWRITEAOF with concurrent writers did not return (parked: %d)", len(s.ParkedTasks())))
+		return consumed, false
+	}
+	if rw.Panic != "" {
+		a.fail("panic/"+topRepoFrame(rw.Panic), "REWRITEAOF: "+rw.Panic)
+		return consumed, false
+	}
+	if rw.IsError() {
+		a.fail("rewrite-error", fmt.Sprintf("REWRITEAOF (concurrent writers) failed: %s %s", rw.Err, rw.Reply.Str))
+		return consumed, false
+	}
+	for _, w := range ws {
+		if w.res == nil {
+			a.fail("concurrent-writer/never-answered", fmt.Sprintf("%q issued while REWRITEAOF was running was never answered", w.args))
+			return consumed, false
+		}
+		if w.res.Panic != "" {
+			a.fail("panic/"+topRepoFrame(w.res.Panic), fmt.Sprintf("%q: %s", w.args, w.res.Panic))
+			return consumed, false
+		}
+		a.acked++
+	}
+	a.acked++
+	a.rewriteCrashSite = ""
+	a.crashSites = nil
+	a.tainted = lossy(a.dump())
+	if len(ws) > 0 {
+		a.concWriters = true
+	}
+	if cur := a.dump(); !mapsEqual(cur, last) {
+		a.states = append(a.states, cur)
+	}
+	if a.p.SK("sync") == "always" || a.disk.PendingOps("aof/log.aof") == 0 {
+		a.syncedUp = len(a.states) - 1
+	}
+	return consumed, true
+}
